@@ -175,6 +175,23 @@ func c01PolicyInForce(c *Ctx, r *R) {
 		mustPass(c, r, "in-range-policy-only-policy-ref", fn, isInstr(l.Instr), eng.NewCut().AddEdges(isPol...), "an in-range policy state is loaded only from entries for the policy reference", "a policy state can be loaded from an entry that is not for refs/gittuf/policy")
 		errPropagates(c, r, "in-range-policy-load-error", l)
 	}
+	// the queue is consumed one entry at a time: every re-slicing of an entry queue drops exactly the
+	// element that was just read (entries[0] … entries = entries[1:])
+	okPop, nPop := true, 0
+	for _, b := range fn.Blocks {
+		for _, in := range b.Instrs {
+			sl, ok := in.(*ssa.Slice)
+			if !ok || sl.X.Type().String() != ruSlice || sl.Low == nil {
+				continue
+			}
+			nPop++
+			lo, isC := eng.ConstInt(sl.Low)
+			if !isC || lo != 1 || sl.High != nil {
+				okPop = false
+			}
+		}
+	}
+	r.Check(okPop && nPop >= 2, "queue-consumed-one-by-one", fn.Pos(), "both queues are consumed by entries[0] / entries[1:]", "an entry queue is advanced by something other than [1:]: entries would be skipped without being judged (or examined for the recovery)")
 	// every in-range policy / attestations entry takes effect: from the edge on which the popped
 	// entry is for the policy (attestations) reference, the next entry is reached only after the
 	// state was loaded from that entry and stored in the slot verifyEntry reads — except the policy
